@@ -65,6 +65,13 @@ def log1(ctx):
                     break
         ctx.check(not bad, '%s:mem-logged' % b.path, where(b, (bad or ms)[0]), 'every success path through an in-memory update also writes a WAL entry',
                   'an in-memory update can reach a successful return without any WAL entry being written (lost at the next restart)', detail=wit)
+        # ... and the entry comes FIRST: no in-memory update is reachable before the call's WAL entry has been written.
+        # The write can fail (a roll-over that cannot create its file): an update made before it stays in memory of a
+        # call that returned Err with nothing logged -- records already evicted, file pins already released, the next GC
+        # unlinks the file and a restart has lost them.
+        early = [m for m in ms if m not in logs and m in b.reach([b.entry], avoid=logs)] if logs else []    # a wrapper logs through its callee
+        ctx.check(not early, '%s:log-before-mem' % b.path, where(b, (early or ms)[0]), 'no in-memory update happens before the WAL entry of the call is written',
+                  'an in-memory update (%s) happens before the WAL entry of the call is written: if the write fails the call returns an error with memory already changed and nothing logged' % (b.loc(early[0]) if early else '-'))
     if n == 0:
         ctx.missing('api', 'no mutating API body with an in-memory update found')
 
@@ -380,6 +387,14 @@ def gc10(ctx):
             late = [m for m in ms if m in b.reach_after(g.point)]
             ctx.check(not late, '%s:mem-before-gc' % b.path, where(b, g.point), 'no in-memory update of this call happens after its GC pass',
                       'an in-memory update (%s) happens after the GC pass has recorded queue positions: the positions logged before file deletion describe a state this call then changes (e.g. a deleted queue is re-created at restart)' % (b.loc(late[0]) if late else '-'))
+            # ... and the call's OWN WAL entry is written before its GC pass: the files the pass unlinks are superseded by that
+            # entry (a DeleteQueue / Truncate written after the unlinks leaves a window in which the files are gone and
+            # nothing says why: a crash there recovers a queue with a hole at its head)
+            own = [cs.point for cs in log_sites(ctx, b)] if b in list(api_mut(ctx)) else []
+            if own:
+                after_gc = [p for p in own if p in b.reach_after(g.point) and not b.dominates(p, g.point)]
+                ctx.check(not after_gc, '%s:entry-before-gc' % b.path, where(b, g.point), 'the call writes its own WAL entry before its GC pass',
+                          'the WAL entry of the call is written after its GC pass (%s): files are unlinked before the entry that supersedes them exists' % (b.loc(after_gc[0]) if after_gc else '-'))
     if n == 0:
         ctx.missing('gc-callers', 'no API body calls the GC pass')
 
